@@ -724,7 +724,7 @@ Proof.
   - apply format_tokens_double_tilde'.
   - destruct f; cbn [placeholder]; try reflexivity; destruct (c =? 64); reflexivity.
   - destruct x; try reflexivity.
-    cbn [special_text]. apply (format_tokens_double_tilde' [n]).
+    cbn [special_text]. apply (format_tokens_double_tilde' [scalar_or_zero n]).
 Qed.
 
 (** the tokens of a whole template are the tokens of its elements, in order: no literal text
